@@ -48,9 +48,30 @@ func fail(format string, a ...any) {
 	os.Exit(1)
 }
 
+// every non-test source file of the package directory: a constant or function that moves to
+// another file of the package (a neutral refactoring) is still found
+func sources(dir string) []string {
+	ents, err := os.ReadDir(dir)
+	if err != nil {
+		fail("%v", err)
+	}
+	var res []string
+	for _, e := range ents {
+		n := e.Name()
+		if !e.IsDir() && strings.HasSuffix(n, ".go") && !strings.HasSuffix(n, "_test.go") && !strings.HasPrefix(n, "zz_verif") {
+			res = append(res, n)
+		}
+	}
+	sort.Strings(res)
+	return res
+}
+
 func load(dir, name string, only []string) (*types.Package, *types.Info, []*ast.File) {
 	fset := token.NewFileSet()
 	var files []*ast.File
+	if only == nil {
+		only = sources(dir)
+	}
 	for _, fn := range only {
 		f, err := parser.ParseFile(fset, filepath.Join(dir, fn), nil, 0)
 		if err != nil {
@@ -111,11 +132,52 @@ func funcDecl(files []*ast.File, name string) *ast.FuncDecl {
 	return nil
 }
 
-// `if o.<field> <= 0 { o.<field> = <deflt> }` at the top level of fn's body, after the last range loop
-func hasFallback(fn *ast.FuncDecl, field, deflt string) bool {
+// `if o.<field> <= 0 { o.<field> = <deflt> }` at the top level of fn's body, after the last range loop.
+// Equivalent spellings are followed: `< 1`, `0 >= o.f`, `1 > o.f`, `!(o.f > 0)`, `!(o.f >= 1)`, parentheses, and a
+// right-hand side that is any constant expression with the value of <deflt>.
+func hasFallback(info *types.Info, pkg *types.Package, fn *ast.FuncDecl, field, deflt string) bool {
 	sel := func(e ast.Expr) bool {
-		s, ok := e.(*ast.SelectorExpr)
+		s, ok := unparen(e).(*ast.SelectorExpr)
 		return ok && s.Sel.Name == field
+	}
+	lit := func(e ast.Expr, v string) bool {
+		x, ok := intVal(info, unparen(e))
+		if ok {
+			return x == v
+		}
+		l, ok := unparen(e).(*ast.BasicLit)
+		return ok && l.Value == v
+	}
+	var nonPositive func(e ast.Expr) bool
+	nonPositive = func(e ast.Expr) bool {
+		switch c := unparen(e).(type) {
+		case *ast.BinaryExpr:
+			switch c.Op {
+			case token.LEQ:
+				return sel(c.X) && lit(c.Y, "0")
+			case token.LSS:
+				return sel(c.X) && lit(c.Y, "1")
+			case token.GEQ:
+				return lit(c.X, "0") && sel(c.Y)
+			case token.GTR:
+				return lit(c.X, "1") && sel(c.Y)
+			}
+		case *ast.UnaryExpr:
+			if c.Op != token.NOT {
+				return false
+			}
+			if b, ok := unparen(c.X).(*ast.BinaryExpr); ok {
+				return (b.Op == token.GTR && sel(b.X) && lit(b.Y, "0")) || (b.Op == token.GEQ && sel(b.X) && lit(b.Y, "1")) ||
+					(b.Op == token.LSS && lit(b.X, "0") && sel(b.Y)) || (b.Op == token.LEQ && lit(b.X, "1") && sel(b.Y))
+			}
+		}
+		return false
+	}
+	want := ""
+	if c, ok := pkg.Scope().Lookup(deflt).(*types.Const); ok {
+		if v := constant.ToInt(c.Val()); v.Kind() == constant.Int {
+			want = v.ExactString()
+		}
 	}
 	lastLoop := -1
 	for i, st := range fn.Body.List {
@@ -128,22 +190,31 @@ func hasFallback(fn *ast.FuncDecl, field, deflt string) bool {
 		if !ok || i < lastLoop || ifs.Init != nil || ifs.Else != nil || len(ifs.Body.List) != 1 {
 			continue
 		}
-		be, ok := ifs.Cond.(*ast.BinaryExpr)
-		if !ok || be.Op != token.LEQ || !sel(be.X) {
-			continue
-		}
-		if lit, ok := be.Y.(*ast.BasicLit); !ok || lit.Value != "0" {
+		if !nonPositive(ifs.Cond) {
 			continue
 		}
 		as, ok := ifs.Body.List[0].(*ast.AssignStmt)
-		if !ok || len(as.Lhs) != 1 || len(as.Rhs) != 1 || !sel(as.Lhs[0]) {
+		if !ok || as.Tok != token.ASSIGN || len(as.Lhs) != 1 || len(as.Rhs) != 1 || !sel(as.Lhs[0]) {
 			continue
 		}
-		if id, ok := as.Rhs[0].(*ast.Ident); ok && id.Name == deflt {
+		if id, ok := unparen(as.Rhs[0]).(*ast.Ident); ok && id.Name == deflt {
+			return true
+		}
+		if v, ok := intVal(info, unparen(as.Rhs[0])); ok && want != "" && v == want {
 			return true
 		}
 	}
 	return false
+}
+
+func unparen(e ast.Expr) ast.Expr {
+	for {
+		p, ok := e.(*ast.ParenExpr)
+		if !ok {
+			return e
+		}
+		e = p.X
+	}
 }
 
 // does fn (or a function of the same files it calls, one level) call <x>.UseNumber() ?
@@ -182,28 +253,24 @@ func main() {
 	if len(os.Args) != 3 && len(os.Args) != 4 {
 		fail("usage: c06consts <cache dir> <sqlc dir> [<jsonx dir>]")
 	}
-	cpkg, cinfo, cfiles := load(os.Args[1], "cache", []string{"cachenode.go", "cacheopt.go", "cleaner.go"})
+	cpkg, cinfo, cfiles := load(os.Args[1], "cache", nil)
 	printConsts(cpkg)
-	spkg, _, _ := load(os.Args[2], "sqlc", []string{"cachedsql.go"})
+	spkg, _, _ := load(os.Args[2], "sqlc", nil)
 	printConsts(spkg)
 
 	no := funcDecl(cfiles, "newOptions")
 	if no == nil || no.Body == nil {
 		fail("cacheopt.go: func newOptions not found")
 	}
-	fmt.Printf("flag options_fallback %d\n", b2i(hasFallback(no, "Expiry", "defaultExpiry") &&
-		hasFallback(no, "NotFoundExpiry", "defaultNotFoundExpiry")))
+	fmt.Printf("flag options_fallback %d\n", b2i(hasFallback(cinfo, cpkg, no, "Expiry", "defaultExpiry") &&
+		hasFallback(cinfo, cpkg, no, "NotFoundExpiry", "defaultNotFoundExpiry")))
 	if len(os.Args) == 4 {
-		fset := token.NewFileSet()
-		f, err := parser.ParseFile(fset, filepath.Join(os.Args[3], "json.go"), nil, 0)
-		if err != nil {
-			fail("%v", err)
-		}
-		un := funcDecl([]*ast.File{f}, "Unmarshal")
+		_, _, jfiles := load(os.Args[3], "jsonx", nil)
+		un := funcDecl(jfiles, "Unmarshal")
 		if un == nil || un.Body == nil {
-			fail("jsonx/json.go: func Unmarshal not found")
+			fail("jsonx: func Unmarshal not found")
 		}
-		fmt.Printf("flag jsonx_usenumber %d\n", b2i(callsUseNumber([]*ast.File{f}, un, 2)))
+		fmt.Printf("flag jsonx_usenumber %d\n", b2i(callsUseNumber(jfiles, un, 2)))
 	}
 
 	// nextDelay: switch delay { case X: return Y, true ... default: return 0, false }
